@@ -72,6 +72,7 @@ func c06(r *core.Run) {
 	r.Rule("R7", "the mux path is matched as whole tokens: in Mux.GetHandler the remainder of the name after the path prefix is taken only on an edge where the byte following the prefix was compared equal to the token separator (or the lengths are equal); a bare prefix test would route 'testing.x' or 'users.1' to the service 'test' / 'user'", 1)
 	r.Rule("R9", "the matcher does not give up early: every `false` the recursive matcher returns is produced on the edge where the full-wildcard child was found absent - after the literal and the placeholder child were tried; a `return false` before that (for instance at a handler-less literal node that only exists as part of a longer pattern) hides the placeholder and wildcard patterns that match the name", 1)
 	r.Rule("R10", "registration accepts the documented token forms: analysed under the assumption that the current pattern token is exactly \"*\" (the anonymous placeholder of the Handle documentation, accepted by Pattern.IsValid) and, separately, a one-letter literal, the trie insertion reaches no panic (branches on the token's length and first byte are pruned by the assumption)", 2)
+	r.Rule("R11", "traversals are mount-aware: every function that descends the trie through literal, placeholder and wildcard children while carrying a position parameter tests the node's mounted flag and rebinds its mount index there, passing the rebound value to its recursive calls (the matcher and the registration-time traversal alike); placeholder positions are stored relative to the mux they were added to", 2)
 	r.Rule("R8", "Parallel means the empty group (shared with C01.F2): registration parses the group template from Handler.Group only on the !Parallel edge, so a Parallel handler is stored with the empty group whatever its Group option says (lookup then reports an empty group for it)", 1)
 	c01ParallelGroup(r, "R8")
 
@@ -83,7 +84,8 @@ func c06(r *core.Run) {
 	c06PureLookup(r, "R6")
 	c06NoEarlyFailure(r, "R9", ro)
 	c06RegistrationAccepts(r, ro)
-	c06PrefixBoundary(r)
+	c06PrefixBoundary(r, "R7")
+	c06MountAware(r, "R11", ro)
 	c06GroupTags(r, root, ro)
 	// ---- R1 --------------------------------------------------------------
 	c06Specificity(r, "R1", ro)
@@ -572,6 +574,53 @@ func c06Registration(r *core.Run, root []*ssa.Function, ro *muxRoles) {
 			}
 		}
 		r.Check(n >= 2, "R3", core.FuncName(fn), "mismatch-panics", p.Pos(fn.Pos()), "count and name/position mismatches panic", "setAndValidateParams no longer rejects conflicting placeholders")
+		// every member of a path parameter is compared between the new registration and the node
+		// (a listener and a handler on one node may reach it through patterns that place the same
+		// names on different tokens: model.$id.* and model.*.$id)
+		if st, ok := structType(p, "", "pathParam"); ok {
+			compared := map[string]bool{}
+			fieldOfElem := func(v ssa.Value) (string, ssa.Value) {
+				switch x := core.Strip(v).(type) {
+				case *ssa.Field:
+					if f, ok := core.FieldOf(x); ok && f.Struct == "pathParam" {
+						return f.Name, x.X
+					}
+				case *ssa.UnOp:
+					if fa, ok := x.X.(*ssa.FieldAddr); ok {
+						if f, ok := core.FieldOf(fa); ok && f.Struct == "pathParam" {
+							return f.Name, fa.X
+						}
+					}
+				}
+				return "", nil
+			}
+			for _, b := range fn.Blocks {
+				for _, in := range b.Instrs {
+					bo, ok := in.(*ssa.BinOp)
+					if !ok || (bo.Op != token.NEQ && bo.Op != token.EQL) {
+						continue
+					}
+					if core.TypeName(bo.X.Type()) == "pathParam" && core.TypeName(bo.Y.Type()) == "pathParam" {
+						for i := 0; i < st.NumFields(); i++ {
+							compared[st.Field(i).Name()] = true // whole-struct comparison
+						}
+						continue
+					}
+					fx, bx := fieldOfElem(bo.X)
+					fy, by := fieldOfElem(bo.Y)
+					if fx != "" && fx == fy && bx != by {
+						compared[fx] = true
+					}
+				}
+			}
+			var missing []string
+			for i := 0; i < st.NumFields(); i++ {
+				if !compared[st.Field(i).Name()] {
+					missing = append(missing, st.Field(i).Name())
+				}
+			}
+			r.Check(len(missing) == 0, "R3", core.FuncName(fn), "params-compared-member-by-member", p.Pos(fn.Pos()), "name and token index of every placeholder are compared with those already set on the node", fmt.Sprintf("the placeholders of a new registration are compared with the node's without their member(s) %v: a listener and a handler that put the same names on different tokens are both accepted, and the one registered first decides which token the other's path parameter is taken from", missing))
+		}
 	}
 	// serve returns ValidateListeners' error first
 	for _, fn := range methodsOf(p, "", "Service") {
@@ -990,11 +1039,11 @@ func c06PureLookup(r *core.Run, rule string) {
 }
 
 // c06PrefixBoundary is rule R7.
-func c06PrefixBoundary(r *core.Run) {
+func c06PrefixBoundary(r *core.Run, rule string) {
 	p := r.P
 	gh := methodNamed(p, "", "Mux", "GetHandler")
 	if gh == nil || len(gh.Params) < 2 {
-		r.Unres("R7", "Mux.GetHandler", "missing")
+		r.Unres(rule, "Mux.GetHandler", "missing")
 		return
 	}
 	name := gh.Params[1]
@@ -1043,11 +1092,11 @@ func c06PrefixBoundary(r *core.Run) {
 					sepChecked = true
 				}
 			}
-			r.Check(sepChecked, "R7", core.FuncName(gh), "remainder-after-path-starts-at-token-boundary", p.InstrPos(sl), "the remainder is taken only where the byte after the path is the separator", "the name's remainder after the mux path is taken without having tested that the path is followed by the token separator: a name that merely starts with the path text (\"testing.x\" for path \"test\") is routed into this mux and its handler sees token fragments as path parameters")
+			r.Check(sepChecked, rule, core.FuncName(gh), "remainder-after-path-starts-at-token-boundary", p.InstrPos(sl), "the remainder is taken only where the byte after the path is the separator", "the name's remainder after the mux path is taken without having tested that the path is followed by the token separator: a name that merely starts with the path text (\"testing.x\" for path \"test\") is routed into this mux and its handler sees token fragments as path parameters")
 		}
 	}
 	if n == 0 {
-		r.OKTrivial("R7", core.FuncName(gh), "no-remainder-slicing", p.Pos(gh.Pos()), "the lookup entry takes no remainder of the name by position")
+		r.OKTrivial(rule, core.FuncName(gh), "no-remainder-slicing", p.Pos(gh.Pos()), "the lookup entry takes no remainder of the name by position")
 	}
 }
 
@@ -1284,5 +1333,124 @@ func c06RegistrationAccepts(r *core.Run, ro *muxRoles) {
 			}
 		}
 		r.Check(bad == "", "R10", core.FuncName(fn), "accepts-token:"+sc.what, p.Pos(fn.Pos()), "no panic is reachable in the trie insertion when the token is \""+sc.text+"\"", "registration panics (at "+bad+") for a pattern token \""+sc.text+"\": a pattern the documentation calls valid and Pattern.IsValid accepts (\"user."+sc.text+"\") cannot be registered")
+	}
+}
+
+// c06MountAware: a function that descends the trie through all three child
+// kinds and carries a position parameter is mount-aware: it tests the node's
+// mounted flag and, on the true edge, rebinds one of its int parameters (the
+// mount index) to a token position; its recursive calls pass the rebound
+// value, not the parameter as it came in.
+func c06MountAware(r *core.Run, rule string, ro *muxRoles) {
+	p := r.P
+	mountedF, ok := fieldByType(p, "", "node", func(t types.Type) bool {
+		b, isB := t.Underlying().(*types.Basic)
+		return isB && b.Kind() == types.Bool
+	})
+	if !ok {
+		r.Unres(rule, "node.<mounted>", "no single bool field in the trie node")
+		return
+	}
+	for _, fn := range p.FuncsOfPkg("") {
+		if fn.Parent() != nil || len(fn.Blocks) == 0 {
+			continue
+		}
+		var ints []*ssa.Parameter
+		for _, prm := range fn.Params {
+			if b, isB := prm.Type().Underlying().(*types.Basic); isB && b.Kind() == types.Int {
+				ints = append(ints, prm)
+			}
+		}
+		if len(ints) == 0 {
+			continue
+		}
+		kinds := map[core.Field]bool{}
+		for _, ac := range core.FieldAccesses([]*ssa.Function{fn}, func(f core.Field) bool {
+			return f == ro.nodeNodes || f == ro.nodeParam || f == ro.nodeWild
+		}) {
+			kinds[ac.F] = true
+		}
+		if len(kinds) != 3 {
+			continue
+		}
+		// the rebinding phi
+		type cand struct {
+			phi *ssa.Phi
+			prm *ssa.Parameter
+		}
+		var cands []cand
+		for _, b := range fn.Blocks {
+			iff, isIf := b.Instrs[len(b.Instrs)-1].(*ssa.If)
+			if !isIf {
+				continue
+			}
+			cnd := iff.Cond
+			for {
+				u, isU := cnd.(*ssa.UnOp)
+				if !isU || u.Op != token.NOT {
+					break
+				}
+				cnd = u.X
+			}
+			if f, isF := core.LoadedField(cnd); !isF || f != mountedF {
+				continue
+			}
+			near := map[*ssa.BasicBlock]bool{}
+			for _, s1 := range b.Succs {
+				near[s1] = true
+				for _, s2 := range s1.Succs {
+					near[s2] = true
+				}
+			}
+			for nb := range near {
+				for _, in := range nb.Instrs {
+					phi, isPhi := in.(*ssa.Phi)
+					if !isPhi {
+						break
+					}
+					for _, e := range phi.Edges {
+						for _, ip := range ints {
+							if e == ssa.Value(ip) && len(phi.Edges) == 2 {
+								cands = append(cands, cand{phi, ip})
+							}
+						}
+					}
+				}
+			}
+		}
+		fname := core.FuncName(fn)
+		if len(cands) == 0 {
+			r.Bad(rule, fname, "mount-index-rebound-at-mount-points", p.Pos(fn.Pos()), "this function walks the trie with a position parameter but never rebinds a mount index on the edge where the node is a mount point: placeholder positions, which are stored relative to the mux they were registered in, are then resolved against the wrong token for everything below a nested mount (the pattern handed to OnRegister, the path parameters of a match)")
+			continue
+		}
+		// (the phi may merge two int parameters - the old mount index and the position -: the mount
+		// index is the one at whose position the recursive calls pass the phi)
+		good, nRec := false, 0
+		rebound := cands[0].phi
+		for _, cd := range cands {
+			idx := -1
+			for i, q := range fn.Params {
+				if q == cd.prm {
+					idx = i
+				}
+			}
+			ok, n := true, 0
+			for _, c := range core.Calls(fn) {
+				if c.Common().StaticCallee() != fn || idx >= len(c.Common().Args) {
+					continue
+				}
+				n++
+				if c.Common().Args[idx] != ssa.Value(cd.phi) {
+					ok = false
+				}
+			}
+			if n > nRec {
+				nRec = n
+			}
+			if ok && n > 0 {
+				good, rebound = true, cd.phi
+			}
+		}
+		r.Check(good && nRec > 0, rule, fname, "mount-index-rebound-at-mount-points", p.InstrPos(rebound), "the mount index is rebound where the node is a mount point and every recursive call passes the rebound value", fmt.Sprintf("recursive calls (%d) do not all pass the mount index rebound at mount points", nRec))
 	}
 }
